@@ -56,9 +56,15 @@ class Rule :
                 ):
                     return
 
-            if hasattr(self, 'args') and m.body is not None:
+            if hasattr(self, 'args'):
+                # the argument must exist, be a string and equal the value
+                body = m.body if m.body is not None else []
                 for idx, val in self.args:
-                    if idx >= len(m.body) or m.body[idx] != val:
+                    if (
+                        idx >= len(body)
+                        or not isinstance(body[idx], str)
+                        or body[idx] != val
+                    ):
                         return
 
             if hasattr(self, 'arg_paths') and m.body is not None:
